@@ -61,7 +61,8 @@ CATALOGUES = {
         "G|g3|a+|c-|7|*", "G|*|a+|b-|3|1", "F|a|y+|0|1|0|1|*", "U|u5|a e1", "O|o8|a+ e3+ c+",
         "E|c|a+|c+|0|1|0|1|*", "G|b|a+|b-|4|*", "U|u6|a u6", "O|o9|a+ o9+",
         "O|o10|a+ g1+ b-", "O|o11|b+ g2+ c+ g3- a-", "X|custom|1", "O|u1|a+ b+", "U|o1|a b", "O|o13|e3+ e3+ a+", "O|o14|e3- e3- c-",
-        "E|*|a+|a+|0|4$|0|4$|*", "E|e6|a-|a-|0|4$|0|4$|*",
+        "E|*|a+|a+|0|4$|0|4$|*", "E|e6|a-|a-|0|4$|0|4$|*", "O|o15|a+ b+ a+ o15+", "U|u8|a b a u8", "O|o16|x+ y+ x+ y+ x+ o16+",
+        "O|o1|a+ b+ a+ o1+",
         "E|*|a+|b+|2|4$|0|2|*", "G|*|a+|b-|3|1", "F|a|x+|0|2|0|2|*", "U|u7|a|aa:A:c|jj:J:[1, 2]", "U|u7|b", "O|o12|a+|aa:A:c", "O|o12|b+",
     ], ids=["a", "b", "c", "e1", "e4", "g1", "g2", "g3", "o1", "o2", "u1", "u3", "zz", "2"], unused=True,
         renames=[("a", "d"), ("a", "b"), ("e1", "e9"), ("g1", "g9"), ("o1", "u1"), ("u1", "u2"), ("b", "e1"),
@@ -81,7 +82,7 @@ CATALOGUES = {
                ("G|g1|a+|b-|10|*", 5, "3"), ("G|g1|a+|b-|10|*", 3, "c+"), ("F|a|x+|0|2|0|2|*", 2, "y+"),
                ("F|a|x+|0|2|0|2|*", 2, "x-"), ("F|a|x-|1|3|0|2|*", 3, "0"), ("F|a|x+|0|2|0|2|*", 1, "b"),
                ("F|a|x+|0|2|0|2|*", 7, "2M"), ("O|o1|a+ b+", 2, "a+"), ("U|u1|a e1 g1", 2, "a"),
-               ("G|g1|a+|b-|10|*", 4, "!x")]),
+               ("G|g1|a+|b-|10|*", 4, "!x"), ("F|a|x+|0|2|0|2|*", 2, "!read9"), ("F|a|x-|1|3|0|2|*", 2, "!y z+")]),
     "gfa2s": dict(version="gfa2", lines=[
         "S|a|4|*", "S|b|6|*",
         "E|e1|a+|b+|2|4$|0|2|*", "E|*|a+|b+|2|4$|0|2|*", "E|*|a+|b+|2|4$|0|2|*", "E|e2|a+|b-|0|4$|1|5|*",
@@ -98,7 +99,7 @@ CATALOGUES["perm1"] = dict(version="gfa1", lines=[
     "L|A|+|B|+|2M1D1M", "L|B|-|A|-|1M1I2M", "L|B|+|C|-|*|ID:Z:l1", "L|A|+|A|-|*", "L|C|+|A|+|3M",
     "C|A|+|B|+|1|2M",
     "P|p1|A+,B+|2M1D1M", "P|p2|B-,A-|*", "P|p3|A+,B+,C-|*,*", "P|p4|C+,A+,B+|3M,2M1D1M,*",
-    "H|VN:Z:1.0", "H|xx:i:1", "#| c",
+    "H|VN:Z:1.0", "H|xx:i:1", "#| c", "H|xx:i:1", "H|xx:i:2", "H|xx:i:2|yy:Z:a",
 ], ids=["A", "B", "C", "p1", "p2", "l1"], renames=[])
 CATALOGUES["perm2"] = dict(version="gfa2", lines=[
     "S|a|4|ACGT", "S|b|6|*", "S|c|3|*",
@@ -127,6 +128,12 @@ CATALOGUES["permp"] = dict(version="gfa1", lines=[
     "S|A|*", "S|B|*", "L|B|+|A|+|1M", "L|B|+|A|+|2M", "P|t|B+,A+|2M", "P|v|A-,B-|1M", "L|A|-|A|-|1M", "P|w|A-|1M",
     "P|x|A+|1M",
 ], ids=["A", "B", "t", "v", "w"], renames=[])
+# a hairpin with an asymmetric overlap walked twice by one path (as written and as complement) and once by
+# a path that leaves the overlap open: one document, every arrival order
+CATALOGUES["permh"] = dict(version="gfa1", lines=[
+    "S|A|*", "S|B|*", "L|A|+|A|-|2M1D", "L|A|-|B|+|1M", "L|B|+|A|+|1M",
+    "P|p1|A+,A-|*", "P|p2|A+,A-,B+,A+,A-|2M1D,1M,1M,1I2M",
+], ids=["A", "B", "p1", "p2"], renames=[])
 # version queue with clashing identifiers (known findings of C08: the flush is not transactional)
 CATALOGUES["kfq"] = dict(version="none", lines=[
     "P|A|B+,C+|*", "S|A|*", "L|A|+|B|+|*|ID:Z:x", "P|x|A+,B+|*", "S|B|*", "#| c", "H|VN:Z:1.0|bb:i:2", "H|aa:i:1",
@@ -147,7 +154,7 @@ CATALOGUES["ver"] = dict(version="none", lines=[
 CATALOGUES["vern"] = dict(version="none", lines=[
     "S|ab:Z:x|*", "S|ab:Z:x|3|*", "S|cd:i:1|*|LN:i:4", "S|cd:i:1|4|*|xx:Z:y", "S|B|ACGT|xx:i:1",
     "L|ab:Z:x|+|B|+|*", "E|e|ab:Z:x+|cd:i:1-|0|1|2|3$|*", "H|VN:Z:1.0", "H|VN:Z:2.0", "P|p|ab:Z:x+,B+|*",
-    "X|custom|1", "E|f|f+|B-|0|1|2|3$|*", "O|o|B+ o+",
+    "X|custom|1", "E|f|f+|B-|0|1|2|3$|*", "O|o|B+ o+", "PG|x|1", "LN|y|2", "CV|z",
 ], ids=["ab:Z:x", "B"], renames=[])
 
 
@@ -160,6 +167,7 @@ CATALOGUES["rgfa"] = dict(version="none", lines=[
 CATALOGUES["ids1"] = dict(version="gfa1", lines=[
     "S|A|*", "S|1|*", "S|3|*",
     "L|A|+|1|+|*|ID:Z:2", "L|1|+|3|+|*|ID:Z:A", "C|A|+|3|+|0|*|ID:Z:1", "P|5|A+,1+|*", "P|A|1+,3+|*",
+    "L|1|+|3|+|*|ID:Z:2", "P|8|A+,1+,3+|*", "L|3|-|1|-|*|ID:Z:5",
 ], ids=["A", "1", "2", "5"], unused=True,
     renames=[("A", "4"), ("3", "7"), ("2", "9"), ("A", "1"), ("5", "2"), ("1", "A")])
 CATALOGUES["ids2"] = dict(version="gfa2", lines=[
@@ -952,9 +960,13 @@ def edit_jobs(catname, n, nmut, seed, vlevel=1, kind="edit", complete=False):
     ver = cat["version"]
     rnd = random.Random(seed)
     adds = [text_of(l) for l in cat["lines"] if l[0] in "SLCPEGFOU"]
+    segtext = {}
+    for l in cat["lines"]:
+        if l.startswith("S|") and l.split("|")[1] not in segtext:
+            segtext[l.split("|")[1]] = text_of(l)
     seglen = {l.split("|")[1]: int(l.split("|")[2]) for l in cat["lines"]
               if l.startswith("S|") and ver == "gfa2" and l.split("|")[2].isdigit()}
-    universe = sorted(set(cat["ids"]))
+    universe = sorted(set(cat["ids"]) | {"rz"})
     A = lambda t: dict(k="add", text=t, id="", id2="")
     jobs = []
     for i in range(n):
@@ -1011,7 +1023,18 @@ def edit_jobs(catname, n, nmut, seed, vlevel=1, kind="edit", complete=False):
                         new[pos] = rnd.choice(vals)
                 new = "\t".join(new)
                 h.append(dict(k="disc", text=t, id="", id2="", hold=True))
-                h.append(dict(k="add", text=new, id="", id2="", held=t))
+                ment = [x.rstrip("+-") for x in (f[2].split(" ") if f[0] in "OU" else f[2:4] if f[0] in "EG" else f[1:4:2] if f[0] in "LC" else f[1:2])]
+                ment = [m for m in ment if m in segtext]
+                if ment and rnd.random() < 0.5:
+                    # meanwhile a line the object mentions is removed and defined again: the re-added object
+                    # refers to the line that carries the identifier now
+                    m = rnd.choice(ment)
+                    h.append(dict(k="rm", text="", id=m, id2=""))
+                    h.append(A(segtext[m]))
+                    h.append(dict(k="add", text=new, id="", id2="", held=t))
+                    h.append(dict(k="ren", text="", id=m, id2="rz", n=0))
+                else:
+                    h.append(dict(k="add", text=new, id="", id2="", held=t))
                 cur[cur.index(t)] = new
             elif c < 0.8 and f[0] != "S":
                 h.append(dict(k="disc", text=t, id="", id2=""))
